@@ -75,6 +75,54 @@ class Bonus:                     # a plain attribute object that is also callabl
         return x + self.amount
 
 
+class Hand(list):                 # custom-serialised class that IS a list (a deck, a queue ...)
+    def __init__(self, cards=(), owner="nobody"):
+        super().__init__(cards)
+        self.owner = owner
+
+    def to_save_dict(self):
+        return {"cards": list(self), "owner": self.owner}
+
+    @classmethod
+    def from_save_dict(cls, data):
+        return cls(data["cards"], data["owner"])
+
+    def top(self):
+        return self[0] if self else None
+
+
+class Ledger(dict):               # ... or a dict
+    def __init__(self, entries=None, currency="gold"):
+        super().__init__(entries or {})
+        self.currency = currency
+
+    def to_save_dict(self):
+        return {"entries": dict(self), "currency": self.currency}
+
+    @classmethod
+    def from_save_dict(cls, data):
+        return cls(data["entries"], data["currency"])
+
+    def total(self):
+        return sum(v for v in self.values() if isinstance(v, int))
+
+
+class Relic:                      # its own save record uses the key the save format reserves
+    def __init__(self, kind, power):
+        self.kind = kind
+        self.power = power
+
+    def to_save_dict(self):
+        return {"_type": self.kind, "power": self.power, "_data": {"k": 1}}
+
+    @classmethod
+    def from_save_dict(cls, data):
+        return cls(data["_type"], data["power"])
+
+    def describe(self):
+        return f"{self.kind}:{self.power}"
+
+
 try:
     from bardic.stdlib.inventory import Inventory as _Inventory
 
